@@ -60,6 +60,9 @@ pub struct RunOpts {
     pub check_ranges: bool,
     /// compare the count expectations right after construction (C03's business)
     pub check_expectations: bool,
+    /// call `no_verify_in_drop()` on the original right after construction (clones made later
+    /// inherit the flag); an explicit `verify()` / `report()` at the end judges all the same
+    pub no_verify_in_drop_first: bool,
     /// which predictions are in the scope of the property being checked: for a step outside the
     /// scope only "no pattern's stored response was fabricated" is checked (plus counters)
     pub in_scope: fn(&Pred) -> bool,
@@ -78,6 +81,7 @@ impl Default for RunOpts {
             stop_at_unspecified: false,
             check_ranges: false,
             check_expectations: false,
+            no_verify_in_drop_first: false,
             in_scope: all_in_scope,
         }
     }
@@ -186,6 +190,11 @@ pub fn run_history(config: &Config, history: &[Call], opts: RunOpts) -> Result<R
         return Err(fail("assembly", None, what));
     }
     model.user_panic_arg = user_panic_arg();
+    let original = if opts.no_verify_in_drop_first {
+        original.no_verify_in_drop()
+    } else {
+        original
+    };
     let n_clones = history.iter().map(|c| c.via & 0x7f).max().unwrap_or(0) as usize;
     let clones: Vec<Unimock> = (0..n_clones).map(|_| original.clone()).collect();
 
